@@ -8,7 +8,8 @@ namespace vf
 
 struct StatusOp
 {
-    uint8_t kind{0};  // 0 update(CM status), 1 update(IF status), 2 update(data packet), 3 removeDeviceById, 4 removeInterfaceById, 5 clear
+    uint8_t kind{0};  // 0 update(CM status), 1 update(IF status), 2 update(data packet), 3 removeDeviceById, 4 removeInterfaceById, 5 clear,
+                      // 6 update(message of another kind: other status payload types, vendor / control messages, invalid-typed payloads)
     uint16_t dev{0};
     uint32_t iface{0};
     uint8_t viaDecoder{0};
@@ -47,6 +48,20 @@ inline lib::Packet makeStatusUpdate(const StatusOp& op, size_t index)
         raw.assign(ip.getRawPayload(), ip.getRawPayload() + ip.getLength());
         ptype = wire::kPtIfStatus;
     }
+    else if (op.kind == 6)
+    {
+        // other kinds: the first four payload bytes spell the interface id of the op, so that a tracker which misreads the
+        // payload as an interface status would hit a tracked entry
+        static const uint32_t types[] = {0x0303, 0x0304, 0x0305, 0x03FF, 0x0330, 0xFF01, 0xFF02, 0x0201, 0x0202, 0x0000, 0x0300};
+        uint32_t t = types[(index + op.iface + op.dev) % 11];
+        Bytes b;
+        wire::put32(b, op.iface);
+        wire::putBytes(b, fillBytes(static_cast<uint32_t>(index), 44));
+        p.setPayload(lib::Payload(lib::PayloadType(t), b.data(), b.size()));
+        raw = b;
+        ptype = static_cast<uint8_t>(t);
+        msgType = static_cast<uint8_t>(t >> 8);
+    }
     else
     {
         lib::CanPayload can;
@@ -64,7 +79,7 @@ inline lib::Packet makeStatusUpdate(const StatusOp& op, size_t index)
     p.setVendorId(static_cast<uint16_t>(index));
     if (msgType == wire::kMtData)
         p.setInterfaceId(op.iface);
-    if (op.viaDecoder)
+    if (op.viaDecoder && msgType != 0 && ptype != 0)
     {
         // the real use: packets come out of the decoder
         Bytes frame;
@@ -79,7 +94,7 @@ inline lib::Packet makeStatusUpdate(const StatusOp& op, size_t index)
         wire::putBytes(frame, raw);
         lib::Decoder dec;
         auto got = decodeOwned(dec, frame);
-        if (got.size() == 1 && got[0] && got[0]->isValid())
+        if (got.size() == 1 && got[0] && got[0]->isValid() && got[0]->getPayload().getType().getType() == ((static_cast<uint32_t>(msgType) << 8) | ptype))
             return *got[0];
     }
     return p;
